@@ -139,11 +139,11 @@ Theorem C14_bitfield_update_spec : forall w s e nv tr r,
 Proof. exact bitfield_update_spec. Qed.
 Print Assumptions C14_bitfield_update_spec.
 
-Theorem C14_bitfield_update_int_spec : forall w s e v r,
-  bitfield_update_int w s e v = Some r ->
+Theorem C14_bitfield_update_int_spec : forall w s e v tr r,
+  bitfield_update_int w s e v tr = Some r ->
   let idx := pyslice (seq 0 (length w)) s e in
   idx <> [] /\ length r = length w /\
-  0 <= v < 2 ^ Z.of_nat (length idx) /\
+  (0 <= v < 2 ^ Z.of_nat (length idx) \/ tr = true) /\
   (forall j, (j < length idx)%nat -> nth (nth j idx 0%nat) r false = Z.testbit v (Z.of_nat j)) /\
   (forall i, ~ In i idx -> nth i r false = nth i w false).
 Proof. exact bitfield_update_int_spec. Qed.
@@ -241,6 +241,58 @@ Theorem C14_struct_concat_spec : forall s vals t,
 Proof. exact struct_concat_spec. Qed.
 Print Assumptions C14_struct_concat_spec.
 
+(* ================= no spurious errors: documented uses do not raise ================= *)
+Theorem C14_sparse_mux_ok : forall sel vals dflt,
+  (1 <= length sel)%nat -> NoDup (map fst vals) ->
+  (forall k v, In (k, v) vals -> 0 <= k <= 2 ^ Z.of_nat (length sel) - 1) ->
+  (vals <> [] \/ dflt <> None) ->
+  sparse_mux sel vals dflt <> None.
+Proof. exact sparse_mux_ok. Qed.
+Print Assumptions C14_sparse_mux_ok.
+
+Theorem C14_enum_mux_listed : forall cntrl members table dflt strict r k v,
+  enum_mux cntrl members table dflt strict = Some r ->
+  NoDup (map fst (enum_vals table)) ->
+  tags_ok (sparse_fill (length cntrl) (enum_vals table) (enum_default table dflt)) ->
+  In (Some k, v) table -> to_Z cntrl = k -> to_Z (wbits r) = to_Z (wbits v).
+Proof. exact enum_mux_listed. Qed.
+Print Assumptions C14_enum_mux_listed.
+
+Theorem C14_enum_mux_default : forall cntrl members table dflt strict r d,
+  enum_mux cntrl members table dflt strict = Some r ->
+  NoDup (map fst (enum_vals table)) ->
+  enum_default table dflt = Some d ->
+  tags_ok (sparse_fill (length cntrl) (enum_vals table) (Some d)) ->
+  lookup (to_Z cntrl) (enum_vals table) = None -> to_Z (wbits r) = to_Z (wbits d).
+Proof. exact enum_mux_default. Qed.
+Print Assumptions C14_enum_mux_default.
+
+Theorem C14_prioritized_mux_ok : forall sels vals,
+  length sels = length vals -> vals <> [] -> prioritized_mux sels vals <> None.
+Proof. exact prioritized_mux_ok. Qed.
+Print Assumptions C14_prioritized_mux_ok.
+
+Theorem C14_bitfield_update_ok : forall w s e nv tr,
+  pyslice (seq 0 (length w)) s e <> [] ->
+  (length nv <= length (pyslice (seq 0 (length w)) s e) \/ tr = true)%nat ->
+  bitfield_update w s e nv tr <> None.
+Proof. exact bitfield_update_ok. Qed.
+Print Assumptions C14_bitfield_update_ok.
+
+Theorem C14_match_bitpattern_ok : forall w ns, match_bits w ns <> None <-> length w = length ns.
+Proof. exact match_bits_ok. Qed.
+Print Assumptions C14_match_bitpattern_ok.
+
+Theorem C14_chop_ok : forall w ws,
+  sum_nat ws = length w -> (forall i, (i < length ws)%nat -> (1 <= nth i ws 0)%nat) -> chop w ws <> None.
+Proof. exact chop_ok. Qed.
+Print Assumptions C14_chop_ok.
+
+Theorem C14_partition_wire_ok : forall w size,
+  (1 <= size)%nat -> Nat.modulo (length w) size = 0%nat -> partition_wire w size <> None.
+Proof. exact partition_wire_ok. Qed.
+Print Assumptions C14_partition_wire_ok.
+
 (* ================= non-vacuity: every hypothesis is satisfiable on a non-trivial instance ================= *)
 Example C14_example_mux :
   option_map to_Z (mux [false; true] [[true]; [true; false; true]; [true; true]] (Some [false; true])) = Some 3 /\
@@ -279,7 +331,9 @@ Example C14_example_bitfield :
   option_map to_Z (bitfield_update (of_Z 6 0) (Some (-4)) (Some 5) (of_Z 3 7) false) = Some 28 /\
   option_map to_Z (bitfield_update_set (of_Z 6 63) [((None, Some 1), [false]); ((Some 4, None), [true; false])] false)
     = Some 30 /\
-  bitfield_update_set (of_Z 6 63) [((None, Some 2), [false]); ((Some 1, None), [true; false])] false = None.
+  bitfield_update_set (of_Z 6 63) [((None, Some 2), [false]); ((Some 1, None), [true; false])] false = None /\
+  option_map to_Z (bitfield_update_int (of_Z 4 0) (Some 0) (Some 2) 7 true) = Some 3 /\
+  bitfield_update_int (of_Z 4 0) (Some 0) (Some 2) 7 false = None.
 Proof. vm_compute. repeat split; reflexivity. Qed.
 
 Example C14_example_pattern :
